@@ -36,7 +36,9 @@ def jobs_for(shapes: list, seed: int) -> list:
         ts = CH.types_of_kind(s["kind"])
         if len(s["series"]) != 1:
             ts = [t for t in ts if "PIE" not in t]
-        for k, site in enumerate(("AddChart", "ReplaceData")):
+        for k, site in enumerate(("AddChart", "ReplaceData", "ReuseData")):
+            if site == "ReuseData" and len(s["series"]) < 2:
+                continue
             jobs.append(("%d:%s" % (i, site), s, site, ts[(i + k + seed) % len(ts)], i + seed))
     # the PowerPoint-authored charts of the corpus (supported plot families; the bar+line chart among them): replace_data with two shapes each
     supported = {v[3] for v in CH.chart_types().values()}
@@ -198,7 +200,7 @@ def main() -> int:
         need_col = 703 if thorough else 27
         if maxcol < need_col or maxdepth < 4 or kinds != {"cat", "xy", "bubble"} or not tot.get("points") or tot.get("cols") != 16384:
             raise E.MachineryError("vacuous: maxcol=%d depth=%d kinds=%s points=%s cols=%s" % (maxcol, maxdepth, kinds, tot.get("points"), tot.get("cols")))
-        if {r["site"] for r in nontrivial} != {"AddChart", "ReplaceData"}:
+        if not {"AddChart", "ReplaceData", "ReuseData"} <= {r["site"] for r in nontrivial}:
             raise E.MachineryError("vacuous: a site was never observed")
     smp = [r for r in nontrivial if r["data"]["kind"] == "bubble" and len(r["obs"]["sers"]) == 3][:1] + \
           [r for r in nontrivial if len(r["obs"]["sers"][0]["cat"]["lvls"]) == 3][:1]
